@@ -19,6 +19,10 @@ func stream(c *run.Ctx, name string, n int, opt ref.GenOpt, user []*ref.Fun, mut
 		}
 		id := fmt.Sprintf("%s/%d", name, i)
 		c.Case(id, func() {
+			user := user
+			if len(user) > 0 && i%5 == 1 {
+				user = append(append([]*ref.Fun(nil), user...), ref.NotOverride())
+			}
 			g, env := stdGen(c, name, i, opt, user)
 			us := user
 			if len(us) > 0 && g.R.Intn(2) == 0 {
@@ -39,7 +43,7 @@ func stream(c *run.Ctx, name string, n int, opt ref.GenOpt, user []*ref.Fun, mut
 				c.Count("unrenderable_mutants_skipped", 1)
 				return
 			}
-			pc := &ProgCase{ID: id, Src: ref.Render(e), E: e, Env: env, User: us}
+			pc := &ProgCase{ID: id, Src: ref.Render(e), E: e, Env: env, User: us, SameEnvObject: i%6 == 0}
 			c.Input(pc.Src)
 			var more []*bridge.Env
 			if i%3 == 0 {
@@ -324,6 +328,36 @@ func boundaryCases() []*ProgCase {
 	for _, p := range []string{"(", "[", "a{2,1}", "\\", "*", "a**", "(?P<n", "", "a", "^a$", "[[:alpha:]]+", "\\pL", "(?i)A", "a{1000}", "a{1001}"} {
 		add("match/"+p, ref.Call("match", ref.Str(p), ref.Str("aaa")))
 	}
+	// get-with-default over lists produced by the set functions (their backing
+	// arrays are larger than their lengths)
+	for la := 0; la <= 5; la++ {
+		for lb := 0; lb <= 4; lb++ {
+			if la+lb == 0 {
+				continue
+			}
+			as, bs := make([]*ref.E, la), make([]*ref.E, lb)
+			for q := range as {
+				as[q] = n(fmt.Sprint(q))
+			}
+			for q := range bs {
+				bs[q] = n(fmt.Sprint(100 + q))
+			}
+			var A, B *ref.E = ref.Ident("e"), ref.Ident("e")
+			if la > 0 {
+				A = ref.List(as...)
+			}
+			if lb > 0 {
+				B = ref.List(bs...)
+			}
+			for ix := 0; ix <= la+lb+8; ix++ {
+				add(fmt.Sprintf("get-union/%d/%d/%d", la, lb, ix), ref.Call("get", ref.Call("union", A.Clone(), B.Clone()), n(fmt.Sprint(ix)), neg(n("1"))))
+				if ix%3 == 0 {
+					add(fmt.Sprintf("get-diff/%d/%d/%d", la, lb, ix), ref.Call("get", ref.Call("diff", ref.Call("union", A.Clone(), B.Clone()), ref.List(n("0"))), n(fmt.Sprint(ix)), neg(n("1"))))
+					add(fmt.Sprintf("sub-union/%d/%d/%d", la, lb, ix), ref.Subscript(ref.Call("union", A.Clone(), B.Clone()), n(fmt.Sprint(ix))))
+				}
+			}
+		}
+	}
 	add("max-empty", ref.Call("max", ref.Ident("e")))
 	add("min-empty", ref.Call("min", ref.Ident("e")))
 	add("len-empty", ref.Call("len", ref.List()))
@@ -349,6 +383,7 @@ func init() {
 			fixedCases(c, boundaryCases(), oracleC02)
 			fixedCases(c, wideCases(), oracleC02)
 			fixedCases(c, lazyCases(), oracleC02)
+			fixedCases(c, wideThunkCases(), oracleC02)
 		},
 		Level: "exploration",
 		Rule: "type-directed programs with deliberate partial-operation failures and boundary operands (negative, fractional, huge, NaN, ±Inf indices; missing keys; zero / fractional / out-of-int64 moduli; invalid patterns; empty containers) in every operand position, " +
@@ -472,6 +507,11 @@ func overloadCases() []*ProgCase {
 		mk("w", []*ref.Ty{ref.TNum}, ref.TStr, "w/num"),
 		mk("total", []*ref.Ty{ref.TMap(k, ref.TNum)}, ref.TNum, "total"),
 		mk("cat", []*ref.Ty{ref.TList(ref.TNum), ref.TList(ref.TNum)}, ref.TList(ref.TNum), "cat"),
+		mk("nest", []*ref.Ty{ref.TMap(k, ref.TList(ref.TNum))}, ref.TStr, "nest/map-of-list"),
+		mk("nest", []*ref.Ty{ref.TList(ref.TList(ref.TNum))}, ref.TStr, "nest/list-of-list"),
+		mk("nest", []*ref.Ty{ref.TList(ref.TMap(ref.TStr, a))}, ref.TStr, "nest/list-of-map"),
+		mk("nest", []*ref.Ty{ref.TObj(ref.F("f", ref.TList(a)))}, ref.TStr, "nest/obj-of-list"),
+		mk("nest", []*ref.Ty{a}, ref.TStr, "nest/any"),
 	}
 	n := func(i int) *ref.E { return ref.Num(fmt.Sprint(i), float64(i)) }
 	bot := ref.Subscript(ref.List(), n(0))
@@ -485,6 +525,11 @@ func overloadCases() []*ProgCase {
 		ref.Call("w", n(1)), ref.Call("w", ref.Str("x")), ref.Call("total", ref.Map([]*ref.E{ref.Str("k")}, []*ref.E{n(1)})), ref.Call("total", ref.Map([]*ref.E{n(1)}, []*ref.E{n(1)})),
 		ref.Call("total", ref.Map([]*ref.E{n(1)}, []*ref.E{ref.Str("v")})), ref.Call("cat", ref.Ident("xs"), ref.Ident("xs")), ref.Call("cat", ref.Ident("xs"), ref.List()),
 		ref.Call("cat", ref.Ident("xs"), ref.List(n(1))),
+		ref.Call("nest", ref.Map([]*ref.E{ref.Str("k")}, []*ref.E{ref.List()})), ref.Call("nest", ref.Map([]*ref.E{ref.Str("k")}, []*ref.E{ref.List(n(1))})),
+		ref.Call("nest", ref.List(ref.List())), ref.Call("nest", ref.List(ref.List(n(1)))), ref.Call("nest", ref.List(ref.List(), ref.List())),
+		ref.Call("nest", ref.List(ref.Map(nil, nil))), ref.Call("nest", ref.List(ref.Map([]*ref.E{ref.Str("k")}, []*ref.E{ref.List()}))),
+		ref.Call("nest", ref.Obj([]string{"f"}, []*ref.E{ref.List()})), ref.Call("nest", ref.Obj([]string{"f"}, []*ref.E{ref.List(n(1))})),
+		ref.Call("nest", ref.Map(nil, nil)), ref.Call("nest", ref.List()), ref.Call("nest", ref.Map([]*ref.E{n(1)}, []*ref.E{ref.Map(nil, nil)})),
 		// documented corner cases of the built-ins
 		ref.Call("len", ref.List()), ref.CallF(ref.FInfix, "==", ref.List(), ref.List()), ref.CallF(ref.FInfix, "==", ref.List(n(1)), ref.List()),
 		ref.CallF(ref.FInfix, "==", ref.List(), ref.List(n(1))), ref.Call("union", ref.List(n(1)), ref.List()), ref.Call("union", ref.List(), ref.List(n(1))),
@@ -536,6 +581,11 @@ func overloadCases() []*ProgCase {
 		o[4], o[5], o[6] = set[hp[0]], set[hp[1]], set[hp[2]]
 		orders = append(orders, o)
 	}
+	// one polymorphic function value registered twice, more overloads after it
+	dup := append([]*ref.Fun{set[0], set[0]}, set...)
+	orders = append(orders, dup)
+	dup2 := append([]*ref.Fun{set[5], set[4], set[4], set[6]}, set...)
+	orders = append(orders, dup2)
 	for oi, ord := range orders {
 		for pi, p := range progs {
 			e := p.Clone()
@@ -625,6 +675,7 @@ func init() {
 			stream(c, "welltyped", c.Pick(6000, 250000), opt, user, 0, both)
 			stream(c, "mutant", c.Pick(12000, 400000), opt, user, 1.0, both)
 			fixedCases(c, overloadCases(), both)
+			fixedCases(c, sharedNodeCases(), both)
 			fixedCases(c, permCases(), oracleC05)
 			fixedCases(c, boundaryCases(), oracleC05)
 			fixedCases(c, lazyCases(), oracleC05)
@@ -665,6 +716,7 @@ func init() {
 			user := append(ref.UserFuns(), ref.Twice())
 			opt := ref.GenOpt{MaxDepth: 6, PFail: 0.15, PSugar: 0.6, PBoundary: 0.2, PGroup: 0.03, UserFuns: true}
 			fixedCases(c, lazyCases(), oracleC06)
+			fixedCases(c, wideThunkCases(), oracleC06)
 			stream(c, "mixed", c.Pick(6000, 120000), opt, user, 0, oracleC06)
 			fixedCases(c, permCases(), oracleC06)
 		},
